@@ -1064,12 +1064,6 @@ class DiskRefsContainer(RefsContainer):
                     if ref == HEADREF:
                         raise ValueError("cannot pack HEAD")
 
-                    # remove any loose refs pointing to this one -- please
-                    # note that this bypasses remove_if_equals as we don't
-                    # want to affect packed refs in here
-                    with suppress(OSError):
-                        os.remove(self.refpath(ref))
-
                     if target is not None:
                         packed_refs[ref] = target
                     else:
@@ -1082,6 +1076,15 @@ class DiskRefsContainer(RefsContainer):
             # lock is released but before the stat. Reload on the next access
             # instead.
             self._invalidate_packed_refs_cache()
+
+        # Only now that the new packed-refs file is in place, remove any
+        # loose refs pointing to these ones: removing them earlier would lose
+        # the refs if writing packed-refs failed or the process died in
+        # between. Please note that this bypasses remove_if_equals as we
+        # don't want to affect packed refs in here.
+        for ref in new_refs:
+            with suppress(OSError):
+                os.remove(self.refpath(ref))
 
     def get_peeled(self, name: Ref) -> ObjectID | None:
         """Return the cached peeled value of a ref, if available.
